@@ -202,6 +202,8 @@ def analyse_tu(eng, cfg):
             g = eng.mod.funcs.get(cn)
             if g is not None and orc.is_gch(cn) and not irrules.is_ctor(g) and not irrules.is_dtor(g):
                 work.append(cn)
+    if getattr(cfg, 'canary', False):
+        reach |= set(f.name for f in irrules.gch_roots(eng) if 'canary_' in (f.pretty or ''))
     n = 0
     for name in sorted(reach):
         f = eng.mod.funcs[name]
